@@ -18,7 +18,7 @@ RULE = ('E2: every switch script (one request per frame, then Quit) on a real '
         'per world *instance*.  Non-trivial = a clear flag, a self switch, a '
         're-entered world with held events, a non-processor source.')
 
-SOURCES = ('processor', 'on_update', 'coroutine')
+SOURCES = ('processor', 'on_update', 'coroutine', 'release')
 VIAS = ('switch_from', 'switch_default', 'raise')
 
 
@@ -79,7 +79,14 @@ class Lg:
                               getattr(to_world, 'vlabel', None)))
 
     def probe(self, n):
-        self.envx.log.append(('probe', self.label, n))
+        envx = self.envx
+        envx.log.append(('probe', self.label, n))
+        if (envx.armed is not None and envx.armed[3] == 'release'
+                and envx.burst and n == envx.burst[0]
+                and envx.current is self.world_ref):
+            # the callback of the first of three events that the world is
+            # releasing asks for the switch: two events stay pending
+            perform(envx, self.world_ref)
 
     def on_update(self, dt):
         envx = self.envx
@@ -113,6 +120,17 @@ class ScriptProc(desper.Processor):
         envx.step += 1
         if envx.armed[3] == 'processor':
             perform(envx, w)
+        elif envx.armed[3] == 'release':
+            # the world holds a burst of its own events and releases them
+            # inside its frame; the first callback issues the request
+            envx.burst = tuple(envx.probes + k for k in (1, 2, 3))
+            envx.probes += 3
+            envx.log.append(('burst_sent', w.vlabel, envx.burst,
+                             envx.armed[4]))
+            w.dispatch_enabled = False
+            for n in envx.burst:
+                w.dispatch('probe', n)
+            w.dispatch_enabled = True
         elif envx.armed[3] == 'coroutine':
             # the CoroutineProcessor is reset per request: an exception leaving a
             # coroutine body (SwitchWorld here) leaves the old processor's
@@ -150,7 +168,19 @@ def coroutine_body(envx, world):
     yield
 
 
-class FalsyWorld(desper.World):
+class LabWorld(desper.World):
+    """Logs when a frame is over (normally or abandoned)."""
+    envx = None
+
+    def process(self, dt):
+        try:
+            super().process(dt)
+        finally:
+            self.envx.log.append(('frame_over',
+                                  getattr(self, 'vlabel', None)))
+
+
+class FalsyWorld(LabWorld):
     """A legal World subclass that is falsy (e.g. __len__ = number of
     something that happens to be zero): presence must be tested with
     `is None`, never by truth."""
@@ -200,6 +230,7 @@ def run_case(case):
     envx.last_left = None
     envx.probes = 0
     envx.stalled = None
+    envx.burst = ()
     envx.handles = {n: LabHandle(envx, n) for n in names}
 
     def clock():
@@ -221,7 +252,8 @@ def run_case(case):
     old_world_class = model_world.World
     envx.loading = None
     # worlds of every handle but the first are falsy World subclasses
-    model_world.World = lambda: (desper.World() if envx.loading == names[0]
+    LabWorld.envx = envx
+    model_world.World = lambda: (LabWorld() if envx.loading == names[0]
                                  else FalsyWorld())
     try:
         if preload:
@@ -346,6 +378,14 @@ def judge(case, envx):
                     f'{case}: request {i}: on_switch_in(from={ins[0][2]}, '
                     f'to={ins[0][3]}), expected ({c}, {e})', **feats)
             idx_in = log.index(ins[0], start)
+            over = [j for j in range(start, end)
+                    if log[j] == ('frame_over', c)]
+            if not over or idx_in < over[0]:
+                raise Violation(
+                    'switch_in_after_frame_abandoned',
+                    f'{case}: request {i}: on_switch_in reached {e} while '
+                    f'the frame of {c} that asked for the switch was still '
+                    f'running (window {window})', **feats)
             own = [j for j, r in enumerate(log)
                    if r[0] in ('on_add', 'on_world_load') and r[1] == e]
             if any(j > idx_in for j in own):
@@ -401,6 +441,47 @@ def judge(case, envx):
                 f'processed at {q}) delivered at {deliveries}',
                 via=via, reentered=True,
                 early=bool(deliveries) and deliveries[0] < reentry)
+    # events a world was releasing when one of their callbacks switched
+    for p, r in enumerate(log):
+        if r[0] != 'burst_sent':
+            continue
+        _, label, burst, via = r
+        hits['switch_from_inside_a_release'] = 1
+        where = {n: [j for j, x in enumerate(log)
+                     if x[0] == 'probe' and x[2] == n] for n in burst}
+        if any(log[j][1] != label for js in where.values() for j in js):
+            raise Violation('probe_reaches_its_world', f'{case}: {r}')
+        if any(len(js) > 1 for js in where.values()):
+            raise Violation('held_event_delivered_once',
+                            f'{case}: burst {burst} of {label}: deliveries '
+                            f'{where}', via=via)
+        if via == 'raise':
+            continue
+        rest = burst[1:]
+        nxt = [j for j, x in enumerate(log)
+               if j > p and x[0] == 'process' and x[1] == label]
+        if not nxt:
+            if any(where[n] for n in rest):
+                raise Violation('left_world_holds_its_events',
+                                f'{case}: events {rest} of {label} (left '
+                                f'through switch from inside their release, '
+                                f'never entered again) were delivered',
+                                via=via, reentered=False)
+            continue
+        q = nxt[0]
+        reentry = max(j for j in req_pos if j < q)
+        got = [where[n][0] if where[n] else None for n in rest]
+        if (None in got or got != sorted(got)
+                or not all(reentry < j < q for j in got)):
+            raise Violation(
+                'left_world_holds_its_events',
+                f'{case}: {label} was releasing {burst} when the callback '
+                f'of the first asked for the switch; it is entered again by '
+                f'the request at log {reentry} and processed at {q}; the '
+                f'two events still pending were delivered at {got}',
+                via=via, reentered=True, interrupted_release=True,
+                early=False)
+        hits['interrupted_release_resumed_on_reentry'] = 1
     return {'calls': len(script) + 1, 'hits': hits, 'key': repr(case),
             'nontrivial': bool(hits)}
 
@@ -453,9 +534,20 @@ def run(tier, rep):
         'happens to events dispatched into it is not constrained',
         'the `to` argument of on_switch_out is judged by its own clause '
         '(switch_out_names_entered_world)',
+        'source "release": the running world disables its dispatching, '
+        'dispatches three events and enables again inside its frame; the '
+        'callback of the first event asks for the switch.  The two events '
+        'still pending belong to the world that is left: delivered once, in '
+        'order, when (and only when) that instance is entered again - not '
+        'constrained after a bare raise SwitchWorld',
+        'on_switch_in is delivered in the world "that is actually entered": '
+        'not before the frame that asked for the switch is over (worlds are '
+        'World subclasses that log the end of process())',
     ]
     rep.require_hits(clear_flag=1, self_switch=1, source_on_update=1,
-                     source_coroutine=1, held_event_released_on_reentry=1)
+                     source_coroutine=1, held_event_released_on_reentry=1,
+                     switch_from_inside_a_release=1,
+                     interrupted_release_resumed_on_reentry=1)
     kernel.enumerate_cases(run_case, cases(tier), rep, 'switch-scripts',
                            chunk=500,
                            params=dict(sources=SOURCES, vias=VIAS,
